@@ -48,7 +48,10 @@ ToLowerTab == [c \in {Ch(UpperS, i) : i \in 1..26} |-> Ch(LowerS, CHOOSE i \in 1
 LowerCh(c) == IF c \in DOMAIN ToLowerTab THEN ToLowerTab[c] ELSE c
 DigitTab == [c \in {Ch(DigitS, i) : i \in 1..10} |-> (CHOOSE i \in 1..10 : Ch(DigitS, i) = c) - 1]
 IsDigit(c) == c \in DOMAIN DigitTab
-KwWhite == {" ", "\t", "_", "!"}     \* "space, tab, underscore, ! are all treated as white space"
+KwWhite == {" ", "\t", "_", "!"}     \* "space, tab, underscore, ! are all treated as white space" (trimmed at both ends)
+\* INSIDE a keyword the code collapses every character of the C isspace() class (space, \t, \n, \v,
+\* \f, \r) and '_' and '!' (TLA+ has no escape for \v: vertical tab is the one member not modelled)
+KwInner == KwWhite \cup {"\n", "\r", "\f"}
 Blank == {" ", "\t"}
 
 RECURSIVE FirstIn(_, _, _)          \* first position >= i whose character is in C (0: none)
@@ -63,7 +66,7 @@ From(s, i) == SubSeq(s, i, Len(s))
 RECURSIVE StdFrom(_, _, _, _)
 StdFrom(s, i, last, prevWhite) ==
   IF i > last THEN ""
-  ELSE IF Ch(s, i) \in KwWhite THEN (IF prevWhite THEN "" ELSE " ") \o StdFrom(s, i + 1, last, TRUE)
+  ELSE IF Ch(s, i) \in KwInner THEN (IF prevWhite THEN "" ELSE " ") \o StdFrom(s, i + 1, last, TRUE)
   ELSE LowerCh(Ch(s, i)) \o StdFrom(s, i + 1, last, FALSE)
 \* trim, collapse runs of white space to one space, lower case
 Standardise(s) == LET f == FirstNotIn(s, KwWhite, 1) IN
@@ -467,7 +470,20 @@ Alpha == <<
   "scalar int : 5",                \* 48  colon without '='
   "scalar int := 5\r",             \* 49  DOS line end
   "list key := {7,\\",             \* 50  continued line
-  "8}"                             \* 51
+  "8}",                            \* 51
+  \* white space in every position of known keys: between words, repeated, mixed with case and '_' '!',
+  \* around ':=', around the index brackets, inside the value of an enumerated key
+  "scalar\tint := 21",             \* 52  TAB between the words
+  "SCALAR \t_Int\t:=\t22",         \* 53  mixed white space and case, TABs around ':='
+  "scalar\fint := 23",             \* 54  form feed between the words (isspace)
+  "scalar\rint := 24",             \* 55  CR inside the keyword (isspace)
+  "\t scalar  int \t:= 25",        \* 56  leading / trailing TABs
+  "Vec\tKEY\t[\t2\t]\t:= 26",      \* 57  TABs around the index brackets and inside them
+  "enum key := beta\tGAMMA",       \* 58  value of an enumerated key: TAB between the words
+  "enum key :=\t!Beta_\f gamma ",  \* 59  ... mixed
+  "Start\tTEST\t:=",               \* 60  start key with TABs
+  "end\t\ttest:=",                 \* 61  stop key with TABs
+  "old\tVEC[3] := 27"              \* 62  alias with a TAB
 >>
 AlphaIds == 1..Len(Alpha)
 \* lines used at the inner positions of the longest sequences
